@@ -61,3 +61,27 @@ func TestC24CollisionCheckAfterLoserEnded(t *testing.T) {
 		t.Errorf("collisionHandling blocks forever (with fsmsMu held): it sends Cease to an FSM that ended in Cease and still reads as OpenConfirm")
 	}
 }
+
+// C25: an FSM that has just been ceased is on its way out (FSM.run takes the list lock to remove itself).  A second
+// collision check that still sees its old state and holds the list lock sends it another Cease: that must not wait for
+// the FSM to finish, because the FSM waits for the list lock.
+func TestC25CeaseWhileFSMIsLeaving(t *testing.T) {
+	winner, _, _ := c07FSM()
+	p := winner.peer
+	loser := &FSM{peer: p, eventCh: make(chan int), doneCh: make(chan struct{}), msgRecvCh: make(chan []byte), con: biotesting.NewMockConn(), holdTime: time.Hour, lastUpdateOrKeepalive: time.Now()}
+	loser.state = newOpenConfirmState(loser)
+	p.fsms = []*FSM{winner, loser}
+
+	p.fsmsMu.Lock() // a third connection's collision check is in progress
+	go loser.run()
+	loser.eventCh <- Cease             // the first Cease (from an earlier collision check) is taken by the event loop
+	time.Sleep(100 * time.Millisecond) // loser.run() now wants the list lock to remove itself
+	sent := make(chan struct{})
+	go func() { loser.cease(); close(sent) }() // the check in progress still reads "OpenConfirm" and ceases it again
+	select {
+	case <-sent:
+	case <-time.After(2 * time.Second):
+		t.Errorf("deadlock: cease() waits for the leaving FSM (event loop gone, ended-signal not yet given) while the caller holds fsmsMu, which the leaving FSM needs to remove itself")
+	}
+	p.fsmsMu.Unlock()
+}
